@@ -302,6 +302,7 @@ func clockGetTime(e *Engine, st *State, args []Value, depth int, pos string, k f
 }
 
 func timeAfterFunc(e *Engine, st *State, args []Value, depth int, pos string, k func(*State, Value)) {
+	st.addTrace(TraceEv{Kind: "timer.new", Args: args, Pos: pos})
 	st.addTrace(TraceEv{Kind: "timer.arm", Args: args, Pos: pos})
 	k(st, VAbs{Kind: "timer", ID: e.nextID(), Data: &TimerObj{Name: "new", NilT: TFalse}})
 }
